@@ -213,6 +213,9 @@ def gen_hist_steps(rng, n, sdtype, nsteps):
     steps = []
     have_tp = False
     for j in range(nsteps):
+        if rng.random() < 0.3:
+            steps.append(gen_net_step(rng, n, sdtype))
+            continue
         r = rng.random()
         if j == 0 and r < 0.5:
             r = 0.3            # often: a tensor product is the first thing asked of the fresh network
@@ -246,6 +249,54 @@ def gen_hist_steps(rng, n, sdtype, nsteps):
     steps.append({"a": "tp", "sites": rng.sample(range(n), rng.choice([1, min(2, n), n])), "oseed": rng.randrange(10 ** 9), "odtype": od, "olayout": ol})
     steps.append({"a": "trace"})
     return steps
+
+
+BAD_KINDS = ("unknown", "wrongdim", "nonsquare", "rank")
+
+
+def gen_net_step(rng, n, sdtype):
+    """a step on the density-operator NETWORK itself (not on the source state) that leaves the represented operator
+    |psi><psi| unchanged, so that every later measurement still has the pure-state value:
+      net_canon / net_orth / net_move   the public gauge changes canonical_form / orthogonalize /
+                                        move_orthogonalization_center of the network, towards the artificial root, a ket or
+                                        a bra node
+      net_copy                          the caller goes on with copy.deepcopy(network) / a pickle round trip of it
+      tp_bad                            an ILL-FORMED tensor product is asked for: 1..N-1 valid factors and one factor the
+                                        library rejects (unknown node identifier, matrix of the wrong dimension, non-square
+                                        matrix, wrong rank), mostly AFTER the valid ones in dict order; the caller catches
+                                        the exception and keeps using the same network."""
+    q = rng.random()
+    if q < 0.45:
+        side = rng.choice(["root", "ket", "ket", "bra", "bra"])
+        return {"a": rng.choice(["net_canon", "net_canon", "net_orth", "net_move"]), "side": side, "node": rng.randrange(n)}
+    if q < 0.55:
+        return {"a": "net_copy", "how": rng.choice(["deepcopy", "pickle"])}
+    kind = rng.choice(BAD_KINDS) if n >= 2 else "unknown"
+    m = rng.choice([1, 1, 2, n - 1]) if n >= 2 else 1
+    m = max(1, min(m, n - 1 if kind != "unknown" else n))
+    sites = rng.sample(range(n), m)
+    rest = [i for i in range(n) if i not in sites]
+    od, ol = gen_factor_cfg(rng, sdtype)
+    return {"a": "tp_bad", "sites": sites, "kind": kind, "badsite": (rng.choice(rest) if rest else 0),
+            "badkey": rng.choice(["missing", "root", "ket", "bra"]), "pos": rng.choice([m, m, m, rng.randrange(0, m + 1)]),
+            "oseed": rng.randrange(10 ** 9), "odtype": od, "olayout": ol}
+
+
+def bad_factor(nprs, stp, names, dims, root_id):
+    """(key, array) of the factor of a tp_bad step that the library has to reject"""
+    nm = names[stp["badsite"]]
+    d = dims[nm]
+    kind = stp["kind"]
+    if kind == "unknown":
+        key = {"missing": "no_such_node", "root": root_id, "ket": nm + KSUF, "bra": nm + BSUF}[stp["badkey"]]
+        if key in names:
+            key = "no_such_node"
+        return key, make_factor(nprs, 2)
+    if kind == "wrongdim":
+        return nm, make_factor(nprs, d + 1)
+    if kind == "nonsquare":
+        return nm, make_factor(nprs, d + 1)[:d, :]
+    return nm, (make_factor(nprs, d)[:, 0] if nprs.randint(2) else make_factor(nprs, d)[:, :, None] * np.ones(2))
 
 
 # ---- numerically extreme and exactly degenerate members of the input space (op num, oracle only) -------------------
@@ -558,7 +609,13 @@ class C16(Prop):
             "and trace on ONE network: trace, tensor products (any number of sites, dtype / layout as above), the same TensorProduct object measured again, TTNO "
             "expectation, the caller going on to use the SOURCE state through the library (apply_operator on 1..N sites, canonical_form, move_orthogonalization_center, "
             "normalise(), single-site measurement, an in-place scaling of an array the source holds), a second network with another k built from the same (possibly "
-            "advanced) source; every measurement on the first network is judged "
+            "advanced) source; about 30% of the steps act on the NETWORK itself and leave the represented operator unchanged: the public gauge changes "
+            "canonical_form / orthogonalize / move_orthogonalization_center of the network towards the artificial root, a ket or a bra node (so that the "
+            "next measurement meets pending leg permutations / a recorded centre), the caller going on with copy.deepcopy(network) or a pickle round "
+            "trip of it, and ERROR paths: an ill-formed tensor product with 1..N-1 valid factors and one factor the library has to reject (unknown node "
+            "identifier incl. the root / a ket / a bra identifier, matrix of the wrong dimension, non-square matrix, wrong rank; mostly after the valid "
+            "factors in dict order), the caller catches the exception and keeps using the same network (the call must raise and must leave the network "
+            "and the operator objects as they were: all later measurements are judged); every measurement on the first network is judged "
             "against |psi><psi| of the state it was built from, a second network against the dense state of the source when it is built. Numerically extreme and "
             "exactly degenerate inputs (op num, quick 1 / thorough 3 per setup, oracle only, tolerance 1e-9 RELATIVE to |reference| + |<psi|psi>| x operator scale, no "
             "absolute term): gauge-scaled states (the tensor of node i times 10^e_i, e_i spread over [-9, 9], one node compensating so that the represented state is "
@@ -633,7 +690,9 @@ class C16(Prop):
               "trace() = <psi|psi>, TTNO expectation = <psi|H|psi> (also for an operator network with its own child order), tensor-product expectation "
               "= <psi|(x)O|psi> against an independent dense numpy oracle, also for states stored in float64 arrays / Fortran order, real / Fortran-ordered / strided "
               "factors, on a network nothing was asked of before, and along histories (several measurements on one network, operator objects reused, the source "
-              "state advanced through the library API after the build, a second network from the same source; no model for these: oracle only), and for badly "
+              "state advanced through the library API after the build, a second network from the same source, the network regauged by canonical_form / "
+              "orthogonalize / move_orthogonalization_center, deep-copied or pickled between the measurements, ill-formed tensor products rejected "
+              "in between (the rejection leaves the network as it was); no model for these: oracle only), and for badly "
               "scaled inputs with a tolerance relative to the reference (gauge factors 1e-9..1e+9 between the tensors of one state, norms 1e-20..1e+20, operator "
               "scales 1e-12..1e+8) and exactly degenerate ones (sites in an exact basis state, operators with exactly vanishing matrix elements, values and whole "
               "subtree blocks exactly 0: the value must be finite and 0 up to the rounding scale, not nan) (op num, oracle only); tensor-product "
@@ -659,6 +718,9 @@ class C16(Prop):
                    "re.match('.*'+ket_suffix, id), which also accepts e.g. the bra image of a node named 'a_ket' (reported; cases of this "
                    "kind are evaluated by the oracle only when the finding C16-id-contains-ket-suffix is recorded)",
                    "names without newline / regex metacharacters in the suffixes",
+                   "histories: a gauge change of the network through the public TTN API (canonical_form / orthogonalize / move_orthogonalization_center) "
+                   "and a deepcopy / pickle round trip leave the represented operator unchanged, so the network is still the one obtained from psi; a "
+                   "failure of such a call itself belongs to other properties and ends the history unjudged",
                    "histories: whatever the caller does to the source state after from_ttns (library calls incl. normalise(), in-place writes into the "
                    "source's arrays) must not change the network built before: the network owns its tensors"]
 
@@ -783,8 +845,16 @@ class C16(Prop):
                 c["tp:fresh-network" if x.get("fresh") else "tp:after-trace"] += 1
             if x["op"] == "hist":
                 c[f"hist:steps={len(x['steps'])}"] += 1
+                prev = None
                 for stp in x["steps"]:
                     c["hist-step:" + stp["a"]] += 1
+                    if stp["a"] == "tp_bad":
+                        c["hist-tp_bad:" + stp["kind"] + (" after >= 1 valid factor" if stp["pos"] >= 1 else " as first factor")] += 1
+                    if stp["a"].startswith("net_") and stp["a"] != "net_copy":
+                        c["hist-regauge towards " + stp["side"]] += 1
+                    if prev in ("net_canon", "net_orth", "net_move") and stp["a"] == "tp" and stp["sites"]:
+                        c["hist: tensor product directly after a gauge change of the network"] += 1
+                    prev = stp["a"]
             if x["op"] == "num":
                 c["num:kind=" + x["kind"]] += 1
                 ex = [abs(e) for e in x["scales"]]
@@ -1029,6 +1099,47 @@ class C16(Prop):
                     ttno = util.TTNO.from_hamiltonian(copy.deepcopy(ham), ref)
                     rec.update(value=cplx(ttndo.operator_expectation_value(ttno)), ref=cplx(np.vdot(psi, H @ psi)),
                                scale=float(abs(nrm) * max(1.0, np.linalg.norm(H, 2))))
+                elif a == "tp_bad":
+                    nprs = np.random.RandomState(stp["oseed"] % (2 ** 31))
+                    sites = [names[i] for i in stp["sites"]]
+                    items = [(nm, make_factor(nprs, dims[nm], stp["odtype"], stp["olayout"])) for nm in sites]
+                    items.insert(stp["pos"], bad_factor(nprs, stp, names, dims, case["root_id"]))
+                    keep = [(k, np.array(m)) for k, m in items]
+                    tp = TensorProduct(dict(items))
+                    rec.update(kind=stp["kind"], keys=[k for k, _ in items], pos=stp["pos"], shape=list(items[stp["pos"]][1].shape))
+                    try:
+                        v = ttndo.operator_expectation_value(tp)
+                        rec["accepted"] = cplx(v)
+                    except Exception as e:  # noqa  (the rejection the caller catches)
+                        rec["raised"] = f"{type(e).__name__}: {str(e)[:120]}"
+                    rec["factors_unchanged"] = bool(list(tp.keys()) == [k for k, _ in keep]
+                                                    and all(np.array_equal(m, tp[k]) for k, m in keep))
+                elif a in ("net_canon", "net_orth", "net_move", "net_copy"):
+                    # the caller changes the gauge of the NETWORK / goes on with a copy of it; failures of these calls belong
+                    # to other properties and end the history
+                    try:
+                        if a == "net_copy":
+                            if stp["how"] == "pickle":
+                                import pickle
+                                ttndo = pickle.loads(pickle.dumps(ttndo))
+                            else:
+                                ttndo = copy.deepcopy(ttndo)
+                        else:
+                            nm = names[stp["node"]]
+                            target = {"root": ttndo.root_id, "ket": nm + KSUF, "bra": nm + BSUF}[stp["side"]]
+                            rec["target"] = target
+                            if a == "net_canon":
+                                ttndo.canonical_form(target)
+                            elif a == "net_orth":
+                                ttndo.orthogonalize(target)
+                            elif ttndo.orthogonality_center_id is None:
+                                ttndo.canonical_form(target)
+                            else:
+                                ttndo.move_orthogonalization_center(target)
+                    except Exception as e:  # noqa
+                        rec["src_exc"] = f"{type(e).__name__}: {e}"
+                        recs.append(rec)
+                        break
                 elif a == "second":
                     vec = util.dense_vec(copy.deepcopy(ttns), ids)
                     net = from_ttns(ttns, root_id=case["root_id"], root_bond_dim=stp["k"])
@@ -1318,11 +1429,18 @@ class C16(Prop):
         for rec in ob["steps"]:
             a = rec["a"]
             if "src_exc" in rec:
-                self._stats["hist:source-call-raised"] += 1
+                self._stats["hist:network-regauge/copy-call-raised" if a.startswith("net_") else "hist:source-call-raised"] += 1
                 return None
             msg = None
             if "exc" in rec:
                 msg = f"step {len(done)} ({a}) raised {rec['exc']}"
+            elif a == "tp_bad":
+                self._stats["hist:ill-formed product " + ("rejected" if "raised" in rec else "accepted")] += 1
+                if "accepted" in rec:
+                    msg = (f"step {len(done)}: an ill-formed tensor product (keys {rec['keys']}, factor {rec['pos']} is {rec['kind']} with shape "
+                           f"{rec['shape']}) was not rejected but gave {uncplx(rec['accepted'])}")
+                elif rec.get("factors_unchanged") is False:
+                    msg = f"step {len(done)}: the rejected call changed the TensorProduct / operator matrices it was given"
             elif "value" in rec:
                 v, r = uncplx(rec["value"]), uncplx(rec["ref"])
                 if not self._close(v, r, rec["scale"]):
@@ -1336,7 +1454,10 @@ class C16(Prop):
                 msg = (f"history on one network (tree {case['parents']}, k={case['k']}, state stored as {case.get('sdtype', 'complex')}/"
                        f"{case.get('slayout', 'C')}) after steps {done}: {msg}")
                 return msg
-            done.append(a + (str(rec["sites"]) if "sites" in rec else ""))
+            done.append(a + (str(rec["sites"]) if "sites" in rec else "")
+                        + (f"({rec['target']!r})" if "target" in rec else "")
+                        + (f"(keys {rec['keys']}, factor {rec['pos']} rejected: {rec['kind']} shape {rec['shape']} -> {rec.get('raised')})"
+                           if a == "tp_bad" else ""))
         return None
 
     @staticmethod
